@@ -3,6 +3,7 @@ package c10
 import (
 	"encoding/json"
 	"fmt"
+	"regexp"
 	"strings"
 
 	. "verifharness/common"
@@ -48,9 +49,13 @@ func hexOf(r *Rand, n int, style int) string {
 var wallets = []string{"Wallet 1", "Wallet 2", "W"}
 var accounts = []string{"Account 1", "Account 12", "Account 2", "Validator 1", "1"}
 
-// account patterns: none has a top-level alternation or an escaped trailing dollar (outside the
-// generated domain, see props/C10.json)
+// account patterns; none has an escaped trailing dollar (outside the generated domain, see props/C10.json)
 var patterns = []string{
+	"Wallet 1/Account 1|Wallet 2/Account 2", // top-level alternation: must stay inside the implicit anchors
+	"Account 1|Wallet 2/.*",
+	"Wallet 2/Account 1|1",
+	"^Wallet 1/Account 1|W/1",       // half anchored
+	"^Wallet 1/Account 2$|^W/1$",    // fully anchored by the author: used as written
 	"Wallet 1/Account 1",     // exact name; a prefix of "Wallet 1/Account 12"
 	"Wallet 1/.*",            // whole wallet
 	"Wallet 2/Account [12]",  // class
@@ -72,6 +77,9 @@ var patterns = []string{
 
 var gasValues = []string{"0", "1", "30000000", "60000000", "18446744073709551615", "36000000"}
 var graceValues = []string{"0", "1", "500", "1000", "2500", "86400000", "9223372036854"}
+
+// milliseconds that do not fit time.Duration: must be refused
+var graceOverflow = []string{"9223372036855", "18446744073709", "18446744073710", "9223372036854775807"}
 var minValues = []string{"0", "0.1", "0.5", "1", "0.2", "0.4", "123.456", "0.123456789012345678", "0.00000000000000001",
 	"0.000000000000000001", "0.0000000000000000001", "1e-18", "1E2", "5000000", "0.10", "00.5", "1.000000000000000001",
 	"0.99999999999999999", "340282366920938463463374607431768211456"}
@@ -182,7 +190,11 @@ func (g *gctx) genV2() map[string]any {
 		case k < 9:
 			p["proposer"] = g.key()
 		case k < 19:
-			p["proposer"] = patterns[r.Intn(len(patterns))]
+			pat := patterns[r.Intn(len(patterns))]
+			p["proposer"] = pat
+			if strings.Contains(pat, "|") && !strings.Contains(pat, "(") {
+				g.tags["alternation"] = true
+			}
 		default:
 			p["proposer"] = "0x" + strings.Repeat("00", 48)
 			g.tags["zero-key-proposer"] = true
@@ -347,6 +359,10 @@ func (g *gctx) malformV2(doc map[string]any) string {
 		target["grace"] = "-5"
 		return "grace-negative"
 	case 5:
+		if r.Bool() {
+			target["grace"] = graceOverflow[r.Intn(len(graceOverflow))]
+			return "grace-overflow"
+		}
 		target["grace"] = "1.5"
 		return "grace-fraction"
 	case 6:
@@ -401,7 +417,49 @@ func (g *gctx) malformV2(doc map[string]any) string {
 func (g *gctx) malformV1(doc map[string]any) string {
 	r := g.r
 	def, _ := doc["default_config"].(map[string]any)
-	switch r.Intn(6) {
+	switch r.Intn(11) {
+	case 9:
+		// a second spelling of a key that is present (upper case, or without 0x)
+		pcs, _ := doc["proposer_config"].(map[string]any)
+		if pcs == nil {
+			pcs = map[string]any{}
+			doc["proposer_config"] = pcs
+		}
+		k := g.keys[0]
+		if _, ok := pcs[k]; !ok {
+			pcs[k] = g.genProposer1()
+		}
+		alt := "0x" + strings.ToUpper(k[2:])
+		if alt == k || r.Bool() {
+			alt = k[2:]
+		}
+		pcs[alt] = g.genProposer1()
+		return "v1-duplicate-key"
+	case 10:
+		pcs, _ := doc["proposer_config"].(map[string]any)
+		if pcs == nil {
+			pcs = map[string]any{}
+			doc["proposer_config"] = pcs
+		}
+		pcs[[]string{"0x" + strings.Repeat("ab", 47), "0xzz" + strings.Repeat("ab", 47), "Wallet 1/Account 1"}[r.Intn(3)]] = g.genProposer1()
+		return "v1-key-invalid"
+	case 8:
+		doc["version"] = []any{1, 3, -1, "0", 2, 1}[r.Intn(6)]
+		return "v1-version"
+	case 6:
+		def["fee_recipient"] = []string{"0x1234", "0x11111111111111111111111111111111111111", "0x111111111111111111111111111111111111111122"}[r.Intn(3)]
+		return "v1-fee-length"
+	case 7:
+		if pcs, ok := doc["proposer_config"].(map[string]any); ok {
+			for _, v := range pcs {
+				if m, ok := v.(map[string]any); ok {
+					m["fee_recipient"] = "0x" + strings.Repeat("22", 19)
+					return "v1-fee-length"
+				}
+			}
+		}
+		def["fee_recipient"] = "0xzz11111111111111111111111111111111111111"
+		return "v1-fee-hex"
 	case 0:
 		delete(doc, "default_config")
 		return "v1-default-missing"
@@ -418,12 +476,18 @@ func (g *gctx) malformV1(doc map[string]any) string {
 		def["gas_limit"] = "x"
 		return "v1-gas-text"
 	default:
+		if r.Bool() {
+			def["builder"] = map[string]any{"enabled": false, "grace": graceOverflow[r.Intn(len(graceOverflow))]}
+			return "v1-grace-overflow"
+		}
 		def["builder"] = map[string]any{"enabled": false, "grace": "-1"}
 		return "v1-grace-negative"
 	}
 }
 
-func (g *gctx) validators() []Validator {
+// validators draws 4-7 validators; half of them are aimed at a proposer entry of the document (its
+// public key, or a name its pattern matches) so that entries apply, overlap and shadow each other.
+func (g *gctx) validators(selectors []string) []Validator {
 	r := g.r
 	n := r.Range(4, 7)
 	vs := make([]Validator, 0, n)
@@ -439,6 +503,25 @@ func (g *gctx) validators() []Validator {
 			v.Kind, v.Account = "nowallet", accounts[r.Intn(len(accounts))]
 		default:
 			v.Kind = "nil"
+		}
+		if len(selectors) > 0 && r.Chance(1, 2) {
+			sel := selectors[r.Intn(len(selectors))]
+			if strings.HasPrefix(sel, "0x") {
+				if len(sel) == 98 {
+					v.Pubkey = sel
+				}
+			} else if re, err := regexp.Compile(documented(sel)); err == nil {
+				// a name of the universe that the pattern matches, if there is one
+				start := r.Intn(len(wallets) * len(accounts))
+				for j := 0; j < len(wallets)*len(accounts); j++ {
+					k := (start + j) % (len(wallets) * len(accounts))
+					w, a := wallets[k/len(accounts)], accounts[k%len(accounts)]
+					if re.MatchString(w + "/" + a) {
+						v.Kind, v.Wallet, v.Account = "wallet", w, a
+						break
+					}
+				}
+			}
 		}
 		g.col.Count("validator:" + v.Kind)
 		vs = append(vs, v)
@@ -478,7 +561,23 @@ func gen(r *Rand, col *Collector) Input {
 	if err != nil {
 		panic(err)
 	}
-	in := Input{Doc: string(text), FallbackFee: g.addrs[0], FallbackGas: []uint64{30000000, 0, 1, 12345}[r.Intn(4)], Validators: g.validators()}
+	var selectors []string
+	if ps, ok := doc["proposers"].([]any); ok {
+		for _, p := range ps {
+			if m, ok := p.(map[string]any); ok {
+				if sel, ok := m["proposer"].(string); ok && sel != "" {
+					selectors = append(selectors, sel)
+				}
+			}
+		}
+	}
+	if pcs, ok := doc["proposer_config"].(map[string]any); ok {
+		for k := range pcs {
+			selectors = append(selectors, k)
+		}
+		sortStrings(selectors)
+	}
+	in := Input{Doc: string(text), FallbackFee: g.addrs[0], FallbackGas: []uint64{30000000, 0, 1, 12345}[r.Intn(4)], Validators: g.validators(selectors)}
 	if r.Chance(1, 10) {
 		in.FallbackFee = g.fee()
 	}
